@@ -474,10 +474,42 @@ func threadCPU() time.Duration {
 	return time.Duration(ru.Utime.Nano() + ru.Stime.Nano())
 }
 
-// guarded runs f with recover.  status: 0 = returned within `budget` (wall clock); 1 = returned late
-// (within the grace period); 2 = never returned.
+// onCPU is the time the OS thread `tid` of this process has spent running (schedstat), readable from
+// another thread.
+func onCPU(tid int) time.Duration {
+	b, err := os.ReadFile("/proc/self/task/" + strconv.Itoa(tid) + "/schedstat")
+	if err != nil {
+		return 0
+	}
+	f := strings.Fields(string(b))
+	if len(f) == 0 {
+		return 0
+	}
+	ns, _ := strconv.ParseInt(f[0], 10, 64)
+	return time.Duration(ns)
+}
+
+// blockedState: the goroutine header of a stack dump says it waits for something other than the CPU
+func blockedState(where string) bool {
+	hd := where
+	if i := strings.Index(hd, "]"); i > 0 {
+		hd = hd[:i]
+	}
+	for _, w := range []string{"semacquire", "chan ", "select", "IO wait", "sync.", "sleep", "unknown"} {
+		if strings.Contains(hd, w) {
+			return true
+		}
+	}
+	return false
+}
+
+// guarded runs f with recover.  status: 0 = returned within `budget` (wall clock); 1 = returned late;
+// 2 = never returned: after the grace period the call is given up as hung when its goroutine is blocked
+// or its thread has been ON the CPU for longer than the budget; a goroutine that is merely runnable on
+// an overloaded machine (thread on-CPU time still under the budget) is waited for (up to 30 min).
 func guarded(budget time.Duration, f func() error) (callRes, int, string) {
 	ch := make(chan callRes, 1)
+	tidCh := make(chan [2]int64, 1)
 	go func() {
 		defer func() {
 			if r := recover(); r != nil {
@@ -486,6 +518,8 @@ func guarded(budget time.Duration, f func() error) (callRes, int, string) {
 		}()
 		runtime.LockOSThread()
 		defer runtime.UnlockOSThread()
+		tid := syscall.Gettid()
+		tidCh <- [2]int64{int64(tid), int64(onCPU(tid))}
 		c0 := threadCPU()
 		err := f()
 		ch <- callRes{err: err, cpu: threadCPU() - c0}
@@ -498,13 +532,28 @@ func guarded(budget time.Duration, f func() error) (callRes, int, string) {
 	case <-t.C:
 	}
 	where := stuckAt()
-	t2 := time.NewTimer(grace + 2*budget)
-	defer t2.Stop()
+	var tid [2]int64
 	select {
-	case r := <-ch:
-		return r, 1, where
-	case <-t2.C:
-		return callRes{}, 2, where
+	case tid = <-tidCh:
+	default:
+	}
+	deadline := time.Now().Add(30 * time.Minute)
+	for {
+		t2 := time.NewTimer(grace + 2*budget)
+		select {
+		case r := <-ch:
+			t2.Stop()
+			return r, 1, where
+		case <-t2.C:
+		}
+		now := stuckAt()
+		used := time.Duration(0)
+		if tid[0] != 0 {
+			used = onCPU(int(tid[0])) - time.Duration(tid[1])
+		}
+		if blockedState(now) || tid[0] == 0 || used >= budget || time.Now().After(deadline) {
+			return callRes{}, 2, fmt.Sprintf("%s (thread on CPU for %v)", now, used)
+		}
 	}
 }
 
